@@ -205,3 +205,19 @@ def solution_snapshot(sol):
         "local": int(sol.numberOfLocalTrials),
         "accuracy": "inf" if sol.solutionAccuracy == math.inf else f2h(sol.solutionAccuracy),
     }
+
+
+def replay_in_subprocess(module, case, timeout=900):
+    """runs `oracles.<module>._replay_here(case)` in a FRESH interpreter and returns its result. State leaking between
+    solver instances (class attributes, module globals, shared defaults) also contaminates reference runs made later in
+    the same process, so an in-process replay at the end of a long run could miss what the run itself found."""
+    import json
+    import subprocess
+    code = ("import sys, json; sys.path.insert(0, %r); import importlib; m = importlib.import_module('oracles.%s'); "
+            "print('@@' + json.dumps(m._replay_here(json.load(sys.stdin)), default=str))" % (_H, module))
+    p = subprocess.run([sys.executable, "-c", code], input=json.dumps(case, default=str), stdout=subprocess.PIPE,
+                       stderr=subprocess.PIPE, text=True, env=dict(os.environ), timeout=timeout)
+    line = next((l for l in p.stdout.split("\n") if l.startswith("@@")), None)
+    if line is None:
+        return {"reproduced": False, "detail": "replay subprocess failed: " + p.stderr[-800:]}
+    return json.loads(line[2:])
